@@ -15,7 +15,7 @@ import regex
 import functools
 import schedula as sh
 from . import Token
-from ..errors import TokenError
+from ..errors import TokenError, FormulaError, InvalidRangeName
 from .parenthesis import _update_n_args, _follows_operand
 
 maxcol = 16384
@@ -411,5 +411,8 @@ class Range(Operand):
     def compile(self):
         if self.attr.get('is_ranges', False):
             from ..ranges import Ranges
-            return Ranges().push(self.attr['name'])
+            try:
+                return Ranges().push(self.attr['name'])
+            except InvalidRangeName:  # E.g. relative reference without host.
+                raise FormulaError(self.source)
         return sh.EMPTY
